@@ -1,8 +1,9 @@
 import StraxModel.Lemmas.NetBackpressure
 import StraxModel.Lemmas.NetMeasure
 /-
-  C13 for ANY plugin graph — the networks of Model/Net.lean (c06's `wire : Components → Opts → Consumer → Net`, tied
-  to the real `ThreadedMailboxProcessor` by C06's wiring correspondence): trees, diamonds (reconvergent paths),
+  C13 for ANY plugin graph — the networks of Model/Net.lean (c06's `wire : Components → Opts → Consumer → Net`; `wire` is
+  tied to the real `ThreadedMailboxProcessor` by C06's wiring correspondence, the step relation by `c06.run` and by C13's
+  `graph/net-dynamics`, see notes/C13.md): trees, diamonds (reconvergent paths),
   multi-output dividers with flow-freely side outputs, savers and discarders anywhere, several sources; eager and lazy;
   with or without failures.  Every theorem is about every reachable state of every net, i.e. every schedule and every
   run length.
@@ -30,8 +31,12 @@ theorem dag_capacity_inv {net : Net} {s : NState} (h : Reachable net s) :
   have hi := (reach_inv h).1.mb m sp a hsp ha
   refine ⟨by have := hi.back; simp only [AMB.heapLen]; omega, fun i sb hs => ⟨hi.backSub hs, (hi.sub i sb hs).2.1⟩⟩
 
-/-- REST BOUND for any graph, as an invariant: the sender of the first mailbox of a path is never more than `pathBound`
-messages ahead of what the reader at the end of the path (the consumer) has been handed -/
+/-- REST BOUND for any graph (trees, diamonds, dividers; nothing in the proof needs a tree), as an invariant: the sender of
+the first mailbox of a path is never more than `pathBound` messages ahead of what the reader at the end of the path (the
+consumer) has been handed.  Hypothesis `pathOk` (decidable, evaluated by the driver on every wired net the harness runs)
+excludes: a declared `lag` smaller than the thread's program really has, subscriptions read by several threads, mailboxes with
+several senders, threads with `die` in their body (savers), capacity 0.  Semantics: `Net.step` (guard level; futures and
+worker pools are not in it). -/
 theorem dag_rest_bound {net : Net} {s : NState} (h : Reachable net s) (m0 : Nat) (links : List Link) (mk sk : Nat)
     (hp : pathOk net m0 links mk sk = true) :
     sentInto s m0 + 1 ≤ delivered s mk sk + pathBound net m0 links := by
@@ -51,14 +56,6 @@ theorem dag_delivered_le_sent {net : Net} {s : NState} (h : Reachable net s) (m0
   have := (path_ahead hb hl links m0 mk sk hp a0 ak sbk ha0 hak hsbk).2
   simp only [sentInto, delivered, ha0, hak, hsbk]
   omega
-
-/-- the same under the name the plan uses: for a TREE (one source, several consumers per mailbox: next stage, savers,
-discarders, dividers with flow-freely outputs) the path source → target is unique and `pathBound` is the bound of the
-wiring; nothing in the proof needs the graph to be a tree -/
-theorem tree_rest_bound {net : Net} {s : NState} (h : Reachable net s) (m0 : Nat) (links : List Link) (mk sk : Nat)
-    (hp : pathOk net m0 links mk sk = true) :
-    sentInto s m0 + 1 ≤ delivered s mk sk + pathBound net m0 links :=
-  dag_rest_bound h m0 links mk sk hp
 
 /-- REST BOUND as the property states it: the consumer `c` (the only reader of subscription (mk, sk)) stops pulling in a
 reachable state `s`; whatever the other threads do afterwards (any schedule `σ` without `c`, any length), the consumer's
